@@ -267,9 +267,9 @@ def cases():
     for i, m in enumerate(meshes[3:6] if tier == 'quick' else meshes):
         out.append({'label': '%s/lev-prefix' % m.name, 'mesh': m, 'fields': fsets[i % len(families.FIELD_SETS)], 'layout': families.scatter_layouts(m, rnd, max_files=2),
                     'ref_extra': i % 2, 'level_prefix': ['Lev_', 'L', 'amr_level_'][i % 3]})
-    for r in range(6 if tier == 'quick' else 300):
+    for r in range(6 if tier == 'quick' else 1000):
         nd = rnd.choice([2, 3])
-        m = families.random_mesh(rnd, nd, max_levels=3, max_boxes=4, max_extent=4)
+        m = families.random_mesh(rnd, nd, max_levels=3, max_boxes=4 if tier == 'quick' else 6, max_extent=4 if tier == 'quick' else 8)
         m.name = 'rand%d-%dd' % (r, nd)
         out.append({'label': m.name, 'mesh': m, 'fields': rnd.choice(fsets), 'layout': families.scatter_layouts(m, rnd, 3), 'ref_extra': rnd.randrange(3)})
     return out
